@@ -10,7 +10,8 @@ What is transcribed (line numbers of communication_methods.rs):
   * :59   `for cache_change in changes`                                -- `loop…` below
   * :87   only `ChangeKind::Alive` changes are filtered (dispose / unregister pass unfiltered)
   * :122-134  operator detection: `split_once("<=")` first, then `split_once("=")`; the text BEFORE the operator is the
-          member name (`trim`med at :138); the text AFTER the operator is never looked at
+          member name (`trim`med at :138); the text AFTER the operator was never looked at (D61, `evalOld`); with
+          fixes/D61.patch it is the operand: `%n` / 'quoted' / integer literal (topic_entity.rs `filter_operand`, `operandOf`)
   * :137-144  unknown member -> the reader's loop is left
   * :145-195  `match member kind`: INT32 -> `params[0].parse().expect(..)` and `=` / `<=` on i32;
           STRING8/16 -> `=` / `<=` on `String` with `params[0]`; every other kind -> `todo!()`
@@ -112,13 +113,38 @@ structure Filter where
   params : List (List Char)
 deriving DecidableEq, Repr
 
-/-- communication_methods.rs:122-134: `<=` is tried first, then `=`; result = (text before the operator, operator) -/
-def detect (expr : List Char) : Option (List Char × Op) :=
+/-- communication_methods.rs:122-134: `<=` is tried first, then `=`; result = (text before the operator, text after
+    it, operator) -/
+def detectFull (expr : List Char) : Option (List Char × List Char × Op) :=
   match splitOnce ['<', '='] expr with
-  | some (v, _) => some (v, .le)
+  | some (v, r) => some (v, r, .le)
   | none => match splitOnce ['='] expr with
-    | some (v, _) => some (v, .eq)
+    | some (v, r) => some (v, r, .eq)
     | none => none
+
+/-- the code before fixes/D61.patch only kept the text before the operator -/
+def detect (expr : List Char) : Option (List Char × Op) :=
+  (detectFull expr).map (fun t => (t.1, t.2.2))
+
+/-- `str::parse::<usize>()`: optional `+`, at least one digit (an index too large for usize selects nothing anyway) -/
+def parseUsize (s : List Char) : Option Nat :=
+  let digits := match s with
+    | '+' :: r => r
+    | r => r
+  if digits.isEmpty then none else parseNatAcc digits 0
+
+/-- topic_entity.rs `filter_operand` (fixes/D61.patch): the value the expression compares with. `%n` selects expression
+    parameter n, a single-quoted string stands for its content, an i32 literal for itself; everything else (and `%n`
+    beyond the parameter list) is `None` -/
+def operandOf (operand : List Char) (params : List (List Char)) : Option (List Char) :=
+  match trim operand with
+  | '%' :: idx => match parseUsize idx with
+    | some n => params[n]?
+    | none => none
+  | o =>
+    if o.length ≥ 2 ∧ o.head? = some '\'' ∧ o.getLast? = some '\'' then some ((o.drop 1).dropLast)
+    else if (parseI32 o).isSome then some o
+    else none
 
 def cmpInt : Op → Int → Int → Bool
   | .eq, a, b => a == b
@@ -136,8 +162,26 @@ inductive Eval
   | panic       -- params[0] missing, params[0] not an i32, member kind without an implementation
 deriving DecidableEq, Repr
 
-/-- communication_methods.rs:122-198 for one deserialised ALIVE sample -/
+/-- communication_methods.rs:122-198 for one deserialised ALIVE sample, with fixes/D61.patch: the operand after the
+    operator is resolved (`operandOf`) before the member is looked up -/
 def eval (f : Filter) (d : Data) : Eval :=
+  match detectFull f.expr with
+  | none => .leave
+  | some (v, rest, op) =>
+    match operandOf rest f.params with
+    | none => .leave                                -- unreachable for a filter accepted at creation
+    | some o =>
+      match lookup (trim v) d with
+      | none => .leave
+      | some (.int x) =>
+        match parseI32 o with
+        | none => .panic                            -- `.expect("valid number")`
+        | some k => if cmpInt op x k then .pass else .fail
+      | some (.str x) => if cmpStr op x o then .pass else .fail
+      | some .other => .panic                       -- `todo!()`
+
+/-- the evaluation before fixes/D61.patch (D61): the text after the operator is never read, parameter 0 is used -/
+def evalOld (f : Filter) (d : Data) : Eval :=
   match detect f.expr with
   | none => .leave
   | some (v, op) =>
@@ -174,6 +218,16 @@ def lookupKind (n : List Char) : TypeDesc → Option MKind
     `Err(BadParameter)`. The same operator detection and `trim` as the evaluation; the member must be INT32 or a string,
     parameter 0 must exist and, for an INT32 member, parse as an i32. (Without the patch everything is accepted.) -/
 def validate (ty : TypeDesc) (f : Filter) : Bool :=
+  match detectFull f.expr with
+  | none => false
+  | some (v, rest, _) =>
+    match lookupKind (trim v) ty, operandOf rest f.params with
+    | some .int32, some o => (parseI32 o).isSome
+    | some .string, some _ => true
+    | _, _ => false
+
+/-- the validation of fixes/D60.patch before fixes/D61.patch: parameter 0 whatever the operand says -/
+def validateOld (ty : TypeDesc) (f : Filter) : Bool :=
   match detect f.expr with
   | none => false
   | some (v, _) =>
@@ -205,10 +259,12 @@ def Out.cons {α : Type} (c : Change α) : Out α → Out α
   | .ok l => .ok (c :: l)
   | .panic l => .panic (c :: l)
 
-def evalChange {α : Type} (f : Option Filter) (c : Change α) : Eval :=
+def evalChangeWith {α : Type} (ev : Filter → Data → Eval) (f : Option Filter) (c : Change α) : Eval :=
   match f, c.data with
-  | some f, some d => eval f d
+  | some f, some d => ev f d
   | _, _ => .pass           -- reader on a plain topic, or a not-alive change
+
+def evalChange {α : Type} (f : Option Filter) (c : Change α) : Eval := evalChangeWith eval f c
 
 /-- the loop as found (D32): a failing sample ends the processing of the batch -/
 def loopAsIs {α : Type} (f : Option Filter) : List (Change α) → Out α
@@ -225,6 +281,23 @@ def loopFixed {α : Type} (f : Option Filter) : List (Change α) → Out α
   | c :: cs => match evalChange f c with
     | .pass => (loopFixed f cs).cons c
     | .fail => loopFixed f cs
+    | .leave => .ok []
+    | .panic => .panic []
+
+/-- the two loops with the evaluation before fixes/D61.patch (replay variants of the driver: tree as first found, main) -/
+def loopAsIsOld {α : Type} (f : Option Filter) : List (Change α) → Out α
+  | [] => .ok []
+  | c :: cs => match evalChangeWith evalOld f c with
+    | .pass => (loopAsIsOld f cs).cons c
+    | .fail => .ok []
+    | .leave => .ok []
+    | .panic => .panic []
+
+def loopFixedOld {α : Type} (f : Option Filter) : List (Change α) → Out α
+  | [] => .ok []
+  | c :: cs => match evalChangeWith evalOld f c with
+    | .pass => (loopFixedOld f cs).cons c
+    | .fail => loopFixedOld f cs
     | .leave => .ok []
     | .panic => .panic []
 
